@@ -111,6 +111,10 @@ func replayAny(o *Out, lines []string) {
 			} else if h != nil && len(f) > 1 {
 				h.noise(int(atoi(f[1])))
 			}
+		case "query":
+			if h != nil && len(f) > 1 {
+				h.query(int(atoi(f[1])))
+			}
 		case "view":
 			if h != nil && len(f) > 1 {
 				h.view(f[1])
